@@ -355,5 +355,7 @@ def run(chk, prog):
     for i in r2:
         chk.check(i["ok"], "R5", i["site"], "(C09/R2) " + i["what"].split("\n")[0][:200], "C09-R2:" + i.get("key", "ok"))
     chk.floor("R5-moment-formulas", len(r2), 8)
+    for key_ in list(mm.eff.memo):
+        chk.functions.add(key_[0])
     chk.notes.append("C10: freshness typestate at all append sites x %d invariant cases, block agreement, dataset/accessor/axis tables of HDF5File, cadence. "
                      "NOT decided: numerical equality of stored moments, absolute unit factors." % len(cases))
